@@ -1,4 +1,243 @@
-/- Model driver for C17 (stub: not built yet). -/
+/-
+Model driver for C17.  One op per line:
+
+  emit <c|r> <fmt> <kind> <u|a> <f|b> <srid> <prec> <items…>   -> "ok <hex of output>" | "err geometry|location"
+        fmt  = wkb | ewkb | wkbhex | ewkbhex | wkt | ewkt | geojson
+        kind = point | line | poly | area
+        items: location tokens  x:y:xb:yb:xt:yt   (x,y fixed-point int32; xb,yb = the projected
+               doubles as 16 hex digits (memory order) or "-"; xt,yt = hex of the two printed
+               coordinates at the op's precision or "-"); for `area` the tokens O / I start an
+               outer / inner ring.
+        The factory model (Factory.create over Wkb.impl / Wkt.impl / GeoJson.impl) is run with
+        proj = validity check + table lookup.
+  spec <kind> <u|a> <f|b> <items…>                      -> canonical geomOf over x:y | "err …"
+  dec <fmt> <hex of output>                             -> "ok <srid|-> <canonical>" | "bad"
+        the independent decoders Wkb.parse / Wkt.parse / GeoJson.parse (after lexing)
+  d2s <c|r> <bits> <prec> <hex of the full %.*f output> -> "ok <hex>" | "ub overread" | "ub underread"
+
+canonical geometry: "point P" | "linestring R" | "polygon Y" | "multipolygon Y|Y|…",
+Y = R;R;… (outer first), R = P,P,… ("~" if empty), P = a:b
+-/
+import Osmium.Model.Geom
 import Driver.Common
 
-def main : IO Unit := pure ()
+open Osmium.Geom Driver
+
+structure DP where
+  loc : Location
+  bits : WPoint
+  txt : TPoint
+
+def dblOfHex (s : String) : Option Dbl :=
+  match unhex s with
+  | some [a, b, c, d, e, f, g, h] => some ⟨a, b, c, d, e, f, g, h⟩
+  | _ => none
+
+def zeroDbl : Dbl := ⟨0, 0, 0, 0, 0, 0, 0, 0⟩
+
+def strOfHex (s : String) : Option String :=
+  (unhex s).map fun bs => String.ofList (bs.map fun b => Char.ofNat b.toNat)
+
+def hexOfStr (s : String) : String := hex (s.toList.map fun c => UInt8.ofNat c.toNat)
+
+def parseLoc (s : String) : Option DP :=
+  match s.splitOn ":" with
+  | [x, y] => do
+    pure ⟨⟨← x.toInt?, ← y.toInt?⟩, (zeroDbl, zeroDbl), ("", "")⟩
+  | [x, y, xb, yb, xt, yt] => do
+    let l : Location := ⟨← x.toInt?, ← y.toInt?⟩
+    let bx := (dblOfHex xb).getD zeroDbl
+    let bY := (dblOfHex yb).getD zeroDbl
+    let tx := (strOfHex xt).getD ""
+    let ty := (strOfHex yt).getD ""
+    pure ⟨l, (bx, bY), (tx, ty)⟩
+  | _ => none
+
+/-- items of an area op: O / I open a ring (fuel = token count) -/
+def parseRingsOpFuel : Nat → List String → Option (List (Bool × List DP))
+  | 0, [] => some []
+  | 0, _ => none
+  | _ + 1, [] => some []
+  | fuel + 1, w :: rest =>
+    if w == "O" || w == "I" then do
+      let pts := rest.takeWhile (fun t => t != "O" && t != "I")
+      let rest' := rest.dropWhile (fun t => t != "O" && t != "I")
+      let ps ← pts.mapM parseLoc
+      let more ← parseRingsOpFuel fuel rest'
+      pure ((w == "O", ps) :: more)
+    else none
+
+def parseObj (kind : String) (items : List String) : Option (Obj × List DP) :=
+  match kind with
+  | "point" => do
+    match ← items.mapM parseLoc with
+    | [p] => pure (.node p.loc, [p])
+    | _ => none
+  | "line" => do
+    let ps ← items.mapM parseLoc
+    pure (.way (ps.map (·.loc)), ps)
+  | "poly" => do
+    let ps ← items.mapM parseLoc
+    pure (.wayPolygon (ps.map (·.loc)), ps)
+  | "area" => do
+    let rs ← parseRingsOpFuel items.length items
+    pure (.area (rs.map fun r => (r.1, r.2.map (·.loc))), rs.flatMap (·.2))
+  | _ => none
+
+def mkProj (table : List DP) (l : Location) : Except Err DP :=
+  if !l.valid then .error .location
+  else match table.find? (fun p => p.loc == l) with
+    | some p => .ok p
+    | none => .error .location
+
+def projLoc (l : Location) : Except Err Location :=
+  if l.valid then .ok l else .error .location
+
+def errStr : Err → String
+  | .geometry => "err geometry"
+  | .location => "err location"
+
+/-! rendering tokens -/
+def renderTok (wkt : Bool) : Tok → String
+  | .kw s => s
+  | .open => if wkt then "(" else "["
+  | .close => if wkt then ")" else "]"
+  | .comma => ","
+  | .sp => " "
+  | .num s => s
+
+def render (wkt : Bool) (ts : List Tok) : String := String.join (ts.map (renderTok wkt))
+
+/-! lexers -/
+def isDelim (wkt : Bool) (c : Char) : Bool :=
+  if wkt then c == '(' || c == ')' || c == ',' || c == ' '
+  else c == '[' || c == ']' || c == ',' || c == '}'
+
+def delimTok (_wkt : Bool) (c : Char) : Tok :=
+  if c == ',' then .comma
+  else if c == ' ' then .sp
+  else if c == '(' || c == '[' then .open
+  else if c == '}' then .kw "}"
+  else .close
+
+/-- split into delimiters and maximal runs of other characters -/
+def lexRuns (wkt : Bool) : List Char → List Char → List Tok → List Tok
+  | [], run, acc => (if run.isEmpty then acc else mk run :: acc).reverse
+  | c :: rest, run, acc =>
+    if isDelim wkt c then
+      lexRuns wkt rest [] (delimTok wkt c :: (if run.isEmpty then acc else mk run :: acc))
+    else if wkt && c == ';' then
+      lexRuns wkt rest [] (mk (c :: run) :: acc)
+    else lexRuns wkt rest (c :: run) acc
+where
+  mk (run : List Char) : Tok :=
+    let s := String.ofList run.reverse
+    match run.reverse with
+    | c :: _ => if 'A' ≤ c ∧ c ≤ 'Z' then .kw s else .num s
+    | [] => .kw s
+
+def lexWkt (s : String) : List Tok := lexRuns true s.toList [] []
+
+def lexGeoJson (s : String) : Option (List Tok) :=
+  let marker := "\"coordinates\":"
+  match s.splitOn marker with
+  | [a, b] => some (.kw (a ++ marker) :: lexRuns false b.toList [] [])
+  | _ => none
+
+/-! canonical dump -/
+def dumpRing {P : Type} (f : P → String) (r : List P) : String :=
+  if r.isEmpty then "~" else ",".intercalate (r.map f)
+
+def dumpPoly {P : Type} (f : P → String) (p : Poly P) : String :=
+  ";".intercalate (p.rings.map (dumpRing f))
+
+def dumpGeom {P : Type} (f : P → String) : Geom P → String
+  | .point p => "point " ++ f p
+  | .linestring ps => "linestring " ++ dumpRing f ps
+  | .polygon p => "polygon " ++ dumpPoly f p
+  | .multipolygon ps => "multipolygon " ++ (if ps.isEmpty then "~~" else "|".intercalate (ps.map (dumpPoly f)))
+
+def dumpLoc (l : Location) : String := s!"{l.x}:{l.y}"
+def dumpW (p : WPoint) : String := hex p.1.bytes ++ ":" ++ hex p.2.bytes
+def dumpT (p : TPoint) : String := hexOfStr p.1 ++ ":" ++ hexOfStr p.2
+
+def variantOf (s : String) : Option Variant :=
+  if s == "c" then some .beforeFix else if s == "r" then some .fixed else none
+
+def asciiBytes (s : String) : List UInt8 := s.toList.map fun c => UInt8.ofNat c.toNat
+
+def runEmit (v : Variant) (fmt : String) (obj : Obj) (o : Opts) (srid : Nat) (table : List DP) : Option String :=
+  let proj := mkProj table
+  let fin (r : Except Err (List UInt8)) : String :=
+    match r with
+    | .ok bs => "ok " ++ hex bs
+    | .error e => errStr e
+  let wkb (ewkb hx : Bool) : String :=
+    fin (Factory.create (Wkb.impl (fun (p : DP) => p.bits) ⟨srid, ewkb, hx⟩) v proj obj o)
+  match fmt with
+  | "wkb" => some (wkb false false)
+  | "ewkb" => some (wkb true false)
+  | "wkbhex" => some (wkb false true)
+  | "ewkbhex" => some (wkb true true)
+  | "wkt" => some (fin ((Factory.create (Wkt.impl (fun (p : DP) => p.txt) ⟨none⟩) v proj obj o).map
+                (fun ts => asciiBytes (render true ts))))
+  | "ewkt" => some (fin ((Factory.create (Wkt.impl (fun (p : DP) => p.txt) ⟨some s!"SRID={srid};"⟩) v proj obj o).map
+                (fun ts => asciiBytes (render true ts))))
+  | "geojson" => some (fin ((Factory.create (GeoJson.impl (fun (p : DP) => p.txt)) v proj obj o).map
+                (fun ts => asciiBytes (render false ts))))
+  | _ => none
+
+def runDec (fmt : String) (bs : List UInt8) : String :=
+  let str := String.ofList (bs.map fun b => Char.ofNat b.toNat)
+  let wkb (hx : Bool) : String :=
+    match Wkb.parse hx bs with
+    | some (srid, g) => "ok " ++ (match srid with | some n => toString n | none => "-") ++ " " ++ dumpGeom dumpW g
+    | none => "bad"
+  match fmt with
+  | "wkb" | "ewkb" => wkb false
+  | "wkbhex" | "ewkbhex" => wkb true
+  | "wkt" | "ewkt" =>
+    let toks := lexWkt str
+    if render true toks != str then "bad-lex" else
+    match Wkt.parse toks with
+    | some (pre, g) => "ok " ++ (match pre with | some s => s | none => "-") ++ " " ++ dumpGeom dumpT g
+    | none => "bad"
+  | "geojson" =>
+    match lexGeoJson str with
+    | none => "bad-lex"
+    | some toks =>
+      if render false toks != str then "bad-lex" else
+      match GeoJson.parse toks with
+      | some g => "ok - " ++ dumpGeom dumpT g
+      | none => "bad"
+  | _ => "bad-op"
+
+def step (line : String) : String :=
+  match words line with
+  | "emit" :: v :: fmt :: kind :: un :: dir :: srid :: _prec :: items =>
+    match variantOf v, srid.toNat?, parseObj kind items with
+    | some v, some srid, some (obj, table) =>
+      (runEmit v fmt obj ⟨un == "u", dir == "b"⟩ srid table).getD "bad-op"
+    | _, _, _ => "bad-op"
+  | "spec" :: kind :: un :: dir :: items =>
+    match parseObj kind items with
+    | some (obj, _) =>
+      match geomOf projLoc obj ⟨un == "u", dir == "b"⟩ with
+      | .ok g => "ok " ++ dumpGeom dumpLoc g
+      | .error e => errStr e
+    | none => "bad-op"
+  | ["dec", fmt, h] =>
+    match unhex h with
+    | some bs => runDec fmt bs
+    | none => "bad-op"
+  | ["d2s", v, _bits, _prec, h] =>
+    match variantOf v, strOfHex h with
+    | some v, some full =>
+      match double2string v full.toList with
+      | .ok r => "ok " ++ hexOfStr (String.ofList r)
+      | .error .overread => "ub overread"
+      | .error .underread => "ub underread"
+    | _, _ => "bad-op"
+  | _ => "bad-op"
+
+def main : IO Unit := loopPure step
